@@ -240,9 +240,29 @@ def gen_pool(r):
     pool = []
     shared_seed = r.randrange(1 << 30)
     lut_q = [round(r.choice([0.02, 0.05, 0.1]), 3), r.choice([-128, 0, 3])]
+    attr_op = r.choice(["GELU", "GELU", "LEAKY_RELU", "SOFTMAX", "PRELU", "EXP", "LOG", "SQRT", "HARD_SWISH"])
+    attr_shape = r.choice([(8, 8, 8), (4, 6, 16)])
+    attr_q = [r.choice([0.02, 0.005, 0.002]), r.choice([-10, 0, 100])]  # fine output steps: the two GELU flavours differ by < 1e-3
     for k in range(r.choice([3, 4, 5])):
-        style = r.choice(["lut", "lut", "conv", "generated", "generated", "branchy", "branchy"])
-        if style == "generated":
+        style = r.choice(["lut", "lut", "conv", "generated", "generated", "branchy", "branchy", "lut_attr", "lut_attr"])
+        if style == "lut_attr":
+            # the same table operator on the same quantisation in several models of the pool, differing only in an attribute
+            # (or not at all): whatever the compiler memoises about such an operator must depend on everything the table does
+            H, W, C = attr_shape
+            L = dict(op=attr_op, q=list(attr_q) if attr_op != "SOFTMAX" else [1 / 256, -128], seed=r.choice([1, 2]), **{"in": [0]})
+            if attr_op == "GELU":
+                L["approximate"] = r.random() < 0.5
+            elif attr_op == "LEAKY_RELU":
+                L["alpha"] = r.choice([0.1, 0.2, 0.3])
+            elif attr_op == "SOFTMAX":
+                L["beta"] = r.choice([1.0, 0.5, 2.0])
+            elif attr_op == "PRELU":
+                L["aq"] = [0.01, 0]
+            layers = [L]
+            if r.random() < 0.4:
+                layers.append(dict(op="ADD", act="NONE", q=[0.05, 0], seed=2, **{"in": [1, 1]}))
+            rec = dict(name="net", inputs=[dict(shape=[1, H, W, C], dtype="int8", q=lut_q)], layers=layers, outputs=[len(layers)], dup_names=False)
+        elif style == "generated":
             rec = netgen.gen_recipe(r, profile=r.choice(["mixed", "lut", "npu_only"]))
         elif style == "branchy":
             # several branches and outputs with different sizes and lifetimes: the allocators' initial order is rarely optimal,
@@ -288,6 +308,32 @@ def gen_pool(r):
             rec = dict(name="net", inputs=[dict(shape=[1, H, W, C], dtype="int8", q=lut_q if style != "conv" else [0.05, -3])], layers=layers,
                        outputs=[cur], dup_names=False)
         pool.append(rec)
+    if r.random() < 0.5:
+        # a twin of one model that differs in a single attribute of a single layer (same names, shapes and quantisation)
+        import copy
+        base = copy.deepcopy(r.choice(pool))
+        cands = []
+        for L in base["layers"]:
+            op = L["op"]
+            if op == "GELU":
+                cands.append((L, "approximate", not L.get("approximate", False)))
+            elif op == "LEAKY_RELU":
+                cands.append((L, "alpha", 0.25 if L.get("alpha") != 0.25 else 0.1))
+            elif op == "SOFTMAX":
+                cands.append((L, "beta", 2.0 if L.get("beta", 1.0) != 2.0 else 1.0))
+            elif op in ("CONV_2D", "DEPTHWISE_CONV_2D", "FULLY_CONNECTED", "TRANSPOSE_CONV", "PRELU"):
+                cands.append((L, "seed", (L.get("seed", 1) + 12345) & 0x3FFFFFFF))
+                if op != "PRELU" and L.get("act") is not None:
+                    cands.append((L, "act", "RELU6" if L.get("act") != "RELU6" else "NONE"))
+            elif op in ("RESIZE_BILINEAR", "RESIZE_NEAREST_NEIGHBOR") and not L.get("align_corners"):
+                cands.append((L, "half_pixel", not L.get("half_pixel", False)))
+            elif op in ("ADD", "SUB", "MUL") and L.get("const") is not None:
+                cands.append((L, "seed", (L.get("seed", 1) + 999) & 0x3FFFFFFF))
+        if cands:
+            L, key, val = r.choice(cands)
+            if not (key == "seed" and ("shared_w" in L or "shared_b" in L)):
+                L[key] = val
+                pool.append(base)
     return pool
 
 
@@ -304,7 +350,7 @@ OPTION_POOL = [
 class C14(check.Check):
     pid = "C14"
     level = "fault_enumeration"
-    quick = dict(cases=400, budget=100, timeout=150)
+    quick = dict(cases=1200, budget=100, timeout=150)
     thorough = dict(cases=6000, budget=1500, timeout=400)
     components = {"real": ["vela.main / vela.convert / vela.convert_bytes and the whole compiler with all of its process-global state",
                            "ethosu.vela.api entry points between compilations"],
